@@ -549,7 +549,24 @@ func (ct *cacheTrial) message(n *pb.Notification, wire []byte) string {
 		if note != "" {
 			ct.hist = append(ct.hist, histEntry{Op: "isolation", Out: note})
 		}
-		ct.violation("cache-ingest", cacheClass(pi, part, pst), pi, "GnmiUpdate", n)
+		class, named := cacheClass(pi, part, pst)
+		if !named {
+			// No named corner explains it: the class is the fingerprint of the
+			// smallest message that still fails the same way on the re-created cache.
+			small := shrink(part, 150, func(m proto.Message) bool {
+				env := ct.rebuild()
+				if env == nil {
+					return false
+				}
+				defer env.close()
+				c := proto.Clone(m).(*pb.Notification)
+				p2 := guard(func() { env.c.GnmiUpdate(c) })
+				return p2 != nil && p2.Kind == pi.Kind
+			})
+			class = shrunkClass(pi.Kind, small)
+			ct.hist = append(ct.hist, histEntry{Op: "shrunk", Out: ptext(small)})
+		}
+		ct.violation("cache-ingest", class, pi, "GnmiUpdate", n)
 		return "panic"
 	}
 	out := errClass(err)
